@@ -855,4 +855,34 @@ theorem storage_mapping_wf (p : StorageP) (g : Grid) (n : Nat) :
       simp only [nVars, hsome, if_true]; omega
     · simp at hm
 
+/-- every mapping row (dispatch and boolean) sits at the step of a position of the restricted grid -/
+theorem storage_mapping_steps (p : StorageP) (g : Grid) (n : Nat) :
+    ∀ m ∈ Storage.mapping p g n, ∃ k, k < n ∧ m.step = idxAt g k := by
+  intro m hm
+  unfold Storage.mapping at hm
+  simp only [List.mem_append] at hm
+  rcases hm with (hm | hm) | hm
+  · unfold dispMap at hm
+    split at hm
+    · simp only [List.mem_append, List.mem_map, List.mem_range] at hm
+      rcases hm with ⟨k, hk, rfl⟩ | ⟨k, hk, rfl⟩ <;> exact ⟨k, hk, rfl⟩
+    · simp only [List.mem_map, List.mem_range] at hm
+      obtain ⟨k, hk, rfl⟩ := hm
+      exact ⟨k, hk, rfl⟩
+  · split at hm
+    · simp only [boolMap, List.mem_map, List.mem_range] at hm
+      obtain ⟨k, hk, rfl⟩ := hm
+      exact ⟨k, hk, rfl⟩
+    · simp at hm
+  · split at hm
+    · simp only [boolMap, List.mem_map, List.mem_range] at hm
+      obtain ⟨k, hk, rfl⟩ := hm
+      exact ⟨k, hk, rfl⟩
+    · simp at hm
+
+theorem idxAt_mem (g : Grid) (k : Nat) (hk : k < g.idx.length) : idxAt g k ∈ g.idx := by
+  unfold idxAt
+  rw [List.getD_eq_getElem?_getD, List.getElem?_eq_getElem hk]
+  simp
+
 end EAO
